@@ -67,7 +67,7 @@ for a, b in ((patch, "patch.diff"), (demo, "demo_test.go")):
 res["what_it_needs"] = meta_txt.strip()
 try:
     old = json.load(open(os.path.join(dst, "meta.json")))
-    for k in ("first_attempt", "breaks_property"):
+    for k in ("first_attempt", "breaks_property", "rebased") + (() if meta_txt else ("what_it_needs",)):
         if k in old:
             res[k] = old[k]
 except Exception:
